@@ -189,6 +189,24 @@ def dup_rule(ctx):
         ok = pushes[0] == coll and warns and warns[0] in ("DuplicatedAttribute", "DuplicatedName")
         obs.append(ob("C15.dup/%s#%d" % (coll.split(".")[-1], n), bool(ok), ctx.where(f), "duplicates are searched in `%s`, reported as %s, otherwise pushed into `%s`" % (coll, warns[:1], pushes[0]),
                       witness=None if ok else "the same attribute twice in this family is not flagged (and an unrelated family's name is)"))
+    # "already given?" is asked in one of the three forms the parser uses: the option is set, the list holds the name, or the stored
+    # location is no longer the `default_attr_position` sentinel - never by looking at the *value* (an empty value is a value)
+    odd, n_forms = [], 0
+    for i in sir.walk(f.node, into_items=True):
+        if i.get("k") != "if" or i["cond"].get("k") == "let":
+            continue
+        direct = [x for st in (i["then"].get("stmts") or []) for x in sir.walk(st.get("e") if st.get("k") == "expr" else st, into_closures=False)
+                  if isinstance(x, dict) and x.get("k") == "mcall" and x["m"].startswith("add_warning") and x["args"] and sir.expr_str(x["args"][0]).endswith("DuplicatedAttribute")]
+        if not direct or len(i["then"].get("stmts") or []) != 1:
+            continue
+        n_forms += 1
+        ct = sir.expr_str(i["cond"]).replace(" ", "")
+        if "default_attr_position" in ct or re.search(r"\.(is_some|any)\(", ct) or re.search(r"\.is_some\(\)$", ct):
+            continue
+        odd.append(ct[:60])
+    obs.append(ob("C15.dup/asked-by-presence", False if odd else True if n_forms >= 15 else None, ctx.where(f),
+                  "%d duplicate tests ask whether the attribute was given (option set / name in the list / location sentinel)" % n_forms if not odd else "a duplicate test asks `%s`" % odd[0],
+                  witness=None if not odd else '<slot name="" name="b"/> is not reported as a duplicated attribute'))
     # what is compared is the *name* of the stored item (the attribute name is what may not occur twice), never its value / alias
     wrong_field, n_cmp = [], 0
     for sn in sir.walk(f.node, into_items=True):
@@ -367,6 +385,25 @@ def wave11_rules(ctx):
                       witness=None if ok else "`<!foo bar` at the end of the input yields only the Note-level UnknownMetaTag"))
     if n_ == 0:
         obs.append(ob("C15.kinds/incomplete-tag/anchor", None, "parse/tag.rs", "no caller of the meta-tag attribute reader found"))
+    # trailing garbage in a binding: between the end of the expression and the search for `}}` only white space is consumed, so that
+    # whatever else stands there is what the UnexpectedExpressionCharacter test sees
+    pb = [f for f in tc.fns if f.name == "parse_data_binding" and f.body]
+    if pb:
+        f = pb[0]
+        top = f.body["stmts"]
+        i_expr = [i for i, st in enumerate(top) if any(x.get("k") == "call" and re.match(r"parse_expression", sir.call_name(x) or "") for x in sir.walk(st, into_closures=False))]
+        i_end = [i for i, st in enumerate(top) if any(x.get("k") == "mcall" and x["m"] == "skip_until_before" and x["args"] and sir.strip_ref(x["args"][0]).get("v") == "}}" for x in sir.walk(st, into_closures=False))]
+        if i_expr and i_end and i_expr[0] < i_end[0]:
+            eaten = []
+            for st in top[i_expr[0] + 1:i_end[0]]:
+                for x in sir.walk(st, into_closures=True):
+                    if x.get("k") == "mcall" and re.match(r"(next|next_char_as_str|skip_bytes|consume_str\w*|skip_until\w*|try_parse)$", x["m"]) and sir.expr_str(x["recv"]) == "ps":
+                        eaten.append(sir.expr_str(x)[:40])
+            obs.append(ob("C15.kinds/trailing-garbage/nothing-eaten", not eaten, ctx.where(f),
+                          "between the expression and the search for `}}` only white space is skipped" if not eaten else "between the expression and the trailing-garbage test the parser consumes %s" % eaten[:2],
+                          witness=None if not eaten else "{{ b.c; }} is accepted without an UnexpectedExpressionCharacter diagnostic"))
+        else:
+            obs.append(ob("C15.kinds/trailing-garbage/nothing-eaten", None, ctx.where(f), "the binding parser is not written as expression / white space / search for `}}` at its top level: not decided"))
     return obs
 
 
